@@ -15,7 +15,7 @@ CLAIMED = {
             'save path of every archive scope; one common entry-point protocol (context, archive, serialize, Finalize) in all LoadObject/SaveObject '
             'overloads; XML node shapes emitted by the save side are accepted by the load side (childless element = empty value; recorded known '
             'findings); MsgPack writer-emits subset-of reader-accepts over the decision tables of both codecs; JSON rendering result consumed and '
-            'stream source encoding named; a value the stream reader delivers in chunks is assembled in order (inductive step of the chunk loop); the configured CSV separator reaches every function that decides with it; no counter narrower than 32 bits is updated in a loop.',
+            'stream source encoding named; a value the stream reader delivers in chunks is assembled in order (inductive step of the chunk loop); the configured CSV separator reaches every function that decides with it; no counter narrower than 32 bits is updated in a loop; every string that enters the RapidJSON DOM on the save side is copied (non-owning nodes only for literals and lookups).',
             'cast-kind audit on the typed AST + call protocol rule + writer/reader decision-table inclusion (abstract interpretation)', '§5 C01'),
     'C02': ('other',
             'Structural necessary conditions of "no input can crash or exhaust the loader": no escape to std::terminate on load paths, no '
@@ -28,7 +28,7 @@ CLAIMED = {
             'seekg after EOF is preceded by clear(), single-value wrappers store only on a loaded path and return that result, validators get '
             'the real result, the MsgPack object scope keeps item accounting (keys+values consumed == 2 x pairs accounted, modulo the pending '
             'key) on every CFG path with helper summaries, and the stream window keeps its logical position; the CSV readers select the column whose header equals the key (execution over a header row '
-            'holding every prefix relation). Which value a MsgPack key maps to is not decided.',
+            'holding every prefix relation). A key given as a character array is compared as its null-terminated text. Which value a MsgPack key maps to is not decided.',
             'CFG path enumeration with typestate (pending key) and balance events, interprocedural helper summaries; linear window analysis', '§5 C03'),
     'C04': ('other',
             'Value-flow of arithmetic stores by clang cast kinds and types in every instantiated value loader (no narrowing / sign-changing / '
@@ -39,14 +39,14 @@ CLAIMED = {
     'C05': ('other',
             'Path-complete accounting on the clang CFG: in the MsgPack array/binary read scopes every normal path consumes exactly as many '
             'elements as it counts; DOM array scopes advance once per request; mismatch protocol tables for all 256 first bytes in both '
-            'reader copies; no second consuming attempt after a failed binary scope; the object read scope accounts every consumed member on every path, also the skipped-by-policy ones; header-declared lengths are kept in integer objects wide enough for their length field. Necessary conditions for "a skip consumes exactly '
+            'reader copies; the array attempt after a failed binary scope sees the same value (every failing path of OpenBinaryScope consumes nothing); an integer the target cannot hold reaches the policy mapper; the carrier of an element is fresh per element in every container loader; the object read scope accounts every consumed member on every path, also the skipped-by-policy ones; header-declared lengths are kept in integer objects wide enough for their length field. Necessary conditions for "a skip consumes exactly '
             'that value"; neighbour values themselves are not decided.',
             'CFG path enumeration with event balance (consume vs count) + decision tables over the first-byte domain', '§5 C05'),
     'C06': ('other',
             'Abstract interpretation of both MsgPack writers over value/length intervals partitioned at every compared constant, against an '
             'oracle written from the MessagePack specification: format code, length-field width, minimal encoded size, big-endian payload '
             'of the argument itself, oversize => exception, timestamp headers and field layout; twin equality of the two writers; the '
-            'seconds/nanoseconds split of time values decided over linear forms (no overflow, 0 <= ns < 10^9, sec*10^9+ns exact); every Open*Scope of the write scopes emits the header of its own family; the chaining operators of the field counter return *this by reference. Exhaustive over the partition cells; payload bit patterns of floats are not decided.',
+            'seconds/nanoseconds split of time values decided over linear forms (no overflow, 0 <= ns < 10^9, sec*10^9+ns exact); every Open*Scope of the write scopes emits the header of its own family; the chaining operators of the field counter return *this by reference, its arithmetic counts every class once (linear forms), and every keyed save path writes the entry it counted. Exhaustive over the partition cells; payload bit patterns of floats are not decided.',
             'decision tables by abstract interpretation over an interval partition, compared with a hand-written spec oracle', '§5 C06'),
     'C07': ('other',
             'Abstract interpretation of both MsgPack readers over the exact domain of all 256 first bytes against an oracle written from the '
@@ -56,7 +56,7 @@ CLAIMED = {
     'C08': ('other',
             'Conformance of the emitted text is delegated to rapidjson/pugixml; decided are the adapter obligations around them: Accept() result '
             'consumed, ParseStream source encoding, UtfType-to-backend maps, encoding/BOM/format options reaching the renderers, XML input '
-            'encoding handling, the decision table of the JSON value loader over the kinds of JSON value (every number spelling loads into a floating target), equal pugixml parse options for string and stream input. Equality of the recovered data model under re-rendering is not decided.',
+            'encoding handling, the decision table of the JSON value loader over the kinds of JSON value (every number spelling loads into a floating target), equal pugixml parse options for string and stream input; strings entering the RapidJSON DOM are copied. Equality of the recovered data model under re-rendering is not decided.',
             'result-consumption and argument-flow rules over the typed AST, switch tables', '§5 C08'),
     'C09': ('other',
             'Symbolic linear evaluation of every view built from a CSV cell descriptor (exactly [Offset, Offset+Size) in all four ReadValue '
@@ -67,18 +67,18 @@ CLAIMED = {
     'C10': ('other',
             'Sibling cross-check of the duplicated memory/stream implementations: equal decision tables of the two MsgPack readers for all '
             'methods x 256 first bytes; writer tables; CSV twins compared cell by cell (row states, column selection, scanner transitions), cell reads do not write the row, '
-            'chunked strings are assembled in order, stream-positioning discipline (whole error state cleared before a backward seek), length widths of both reader copies, separator forwarding, no look-ahead of the CSV stream scanner into text not decoded yet. Decides agreement of the copies, not behaviour at every chunk alignment.',
+            'chunked strings are assembled in order, stream-positioning discipline (whole error state cleared before a backward seek), length widths of both reader copies, separator forwarding, no look-ahead of the CSV stream scanner into text not decoded yet, equal parser options of the memory and stream constructors of the JSON and XML adapters. Decides agreement of the copies, not behaviour at every chunk alignment.',
             'twin comparison of decision tables / statement skeletons of sibling implementations', '§5 C10'),
     'C11': ('other',
             'Abstract interpretation of the cross-width transcoders over the scalar-value / code-unit classes of the Unicode standard: for '
             'every well-formed class the emitted code-unit intervals and the consumed length equal the standard (all 256 UTF-8 lead bytes x '
-            'second-byte classes; encoder classes; surrogate pairs), plus width dispatch and endianness adapters of the traits classes, and the stream reader never rejects text for a sequence that merely straddles its chunk boundary. '
+            'second-byte classes; encoder classes; surrogate pairs), plus width dispatch and endianness adapters of the traits classes, and the stream reader never rejects text for a sequence that merely straddles its chunk boundary; no string or view is re-measured from a bare pointer (also in the archive-level transcoding). '
             'Exactness is decided at interval precision per class, not per scalar value.',
             'decision tables by abstract interpretation over interval classes, compared with a hand-written Unicode oracle', '§5 C11'),
     'C12': ('other',
             'Same interpreter over the ill-formed classes (Table 3-7 complements, lone/misordered surrogates, UTF-32 surrogates and values '
             'above U+10FFFF): nothing decoded is emitted, the error is counted once and marked or reported at its start; every input read is '
-            'bounds-guarded and every iteration advances; the configured policy and error mark are forwarded by every layer that holds them (no fallback to a default argument); callers that report failure by throwing do so for every result code but Success. First sequence of the input only.',
+            'bounds-guarded and every iteration advances; the configured policy and error mark are forwarded by every layer that holds them (no fallback to a default argument); callers that report failure by throwing do so for every result code but Success; the encoded stream writer writes and reports Success only after a successful Encode. First sequence of the input only.',
             'decision tables by abstract interpretation over interval classes + iterator typestate (guard domination)', '§5 C12'),
     'C14': ('other',
             'Calendar correctness and the exact print/parse round trip are NOT decided (integer arithmetic over 2^64 instants). Decided is one '
@@ -91,14 +91,14 @@ CLAIMED = {
             'Decides the "never wraps" clause where it is visible in the code: interval abstract interpretation with adaptive cell splitting '
             'over every instantiation of SafeDurationCast (no signed overflow, value returned only unwrapped and equal to the exact product/quotient, '
             'otherwise out_of_range), linear-constraint analysis of both SafeAddDuration overloads, from_chars error-code mapping, the calendar '
-            'acceptance table of the datetime parser over (year mod 400, month, day), the negation of parsed magnitudes, the scaling of the fraction digits (digit count x boundary values) and the year range of the tm target. That an accepted text '
+            'acceptance table of the datetime parser over (year mod 400, month, day), the negation of parsed magnitudes, the scaling of the fraction digits (digit count x boundary values) the year range of the tm target, and no std::chrono rounding / cast into a representation narrower than its source. That an accepted text '
             'yields the denoted instant is calendar arithmetic and is not decided.',
             'abstract interpretation: interval domain with adaptive partitioning, linear constraints (Fourier-Motzkin), finite quotient tables', '§5 C15'),
     'C16': ('other',
             'Bit-exact value round trips belong to std::to_chars/from_chars and are not decided. Decided are the library obligations around them: '
             'error-code mapping of every from_chars result, checked to_chars results with sufficient buffers per instantiated type, in-bounds '
             'look-ahead of the integer parser (linear constraints), the bool parser decision table over character classes and lengths with '
-            'in-bounds reads, and the narrowing/widening route for the four character widths.',
+            'in-bounds reads, and the narrowing/widening route for the four character widths (no code unit is narrowed before it is classified, closures of the parsers included).',
             'abstract interpretation over finite character-class / error-code domains, linear constraints, call-shape rules', '§5 C16'),
     'C17': ('other',
             'Validator plumbing decided structurally per instantiation (fold order over all validators, message forwarding, grouping/append, '
@@ -109,7 +109,7 @@ CLAIMED = {
             'Every container/wrapper loader carries its stale-state eliminator on every normal CFG path of every load instantiation '
             '(final resize(counter) with one increment per element load; clear() before insertion and on every normal exit; clear iff Clean; reset only on the '
             'not-loaded path; assign; size-mismatch throw; bitset loop over all positions), the sequence loaders executed over a container model (target = loaded items in order for every '
-            'prior size x item count x estimate) and the map load modes have no forbidden effect. Element values are not decided.',
+            'prior size x item count x estimate) the map load modes have no forbidden effect, and the loaded / not-loaded result of a string field does not depend on its text. Element values are not decided.',
             'CFG path enumeration (event order / counting) + effect rules per switch case', '§5 C18'),
     'C13': ('other',
             'Decides the structural clauses: BOM constants against the Unicode tables; BOM test order, reported encoding and data offset; the '
@@ -121,7 +121,7 @@ CLAIMED = {
             'abstract interpretation over byte-class / linear-constraint domains (Fourier-Motzkin entailment) + AST structural rules', '§5 C13'),
     'C19': ('proof',
             'Exhaustive audit of shared state: every static-storage object of the library is immutable or a tabled registry written only '
-            'during static initialisation; save paths never mutate the source; hence every shared access from concurrent operations is a '
+            'during static initialisation; save paths never mutate the source (direct writes, non-const calls, reference aliases, accessor writes, mutating standard algorithms); hence every shared access from concurrent operations is a '
             'read. Finite and complete over the analysed program, so a proof of the structural clause.',
             'shared-state audit: who-may-write over the type-checked AST, use classification by cast/call/assignment kinds', '§5 C19'),
     'C20': ('other',
